@@ -19,6 +19,8 @@ import (
 const modulePath = "github.com/sassoftware/relic/v8"
 
 type Checker struct {
+	fieldRanges map[string][2]string // heap array name -> assumed [lo, hi] of a counter field (externs.spec `fieldrange`)
+	anyHomeCache map[string][]anyHome
 	repo      string
 	verif     string
 	fset      *token.FileSet
@@ -116,6 +118,12 @@ func (ck *Checker) addSpecFile(sf *SpecFile) {
 	ck.lemmas = append(ck.lemmas, sf.Lemmas...)
 	if ck.nonnil == nil {
 		ck.nonnil = map[string]bool{}
+	}
+	for _, fr := range sf.FieldRanges {
+		if ck.fieldRanges == nil {
+			ck.fieldRanges = map[string][2]string{}
+		}
+		ck.fieldRanges["H:"+fr[0]+":."+fr[1]] = [2]string{fr[2], fr[3]}
 	}
 	for _, g := range sf.NonNilGlobals {
 		ck.nonnil[g] = true
